@@ -209,8 +209,17 @@ func (cg *CallGraph) solveFuncValues() {
 					fn := ins.Fn.(*ssa.Function)
 					cg.addPts(ins, fn, &work)
 					for i, bnd := range ins.Bindings {
-						if i < len(fn.FreeVars) && isFuncType(bnd.Type()) {
+						if i >= len(fn.FreeVars) {
+							continue
+						}
+						if isFuncType(bnd.Type()) {
 							cg.addFlow(cg.valNode(bnd), fn.FreeVars[i], &work)
+						}
+						// captured variable cells (*func): the cell in the parent and the free variable are
+						// the same location
+						if pt, ok := bnd.Type().Underlying().(*types.Pointer); ok && isFuncType(pt.Elem()) {
+							cg.addFlow(cg.addrNode(bnd), fn.FreeVars[i], &work)
+							cg.addFlow(fn.FreeVars[i], cg.addrNode(bnd), &work)
 						}
 					}
 				case *ssa.Return:
@@ -491,6 +500,256 @@ func (p *Program) CallSitesOfObj(obj *types.Func, libOnly bool) []ssa.Instructio
 					if o := calleeObj(c); o != nil && (o == obj || o.Origin() == obj) {
 						out = append(out, ins)
 					}
+				}
+			}
+		}
+	}
+	return out
+}
+
+// ---- context-sensitive resolution of function-typed parameters -------------------------------------
+//
+// The 0-CFA above merges every closure ever passed to a higher-order helper (bucket.EachNode,
+// table.forNodes, ...) into one parameter node, so reachability through such helpers would connect
+// unrelated callers' callbacks. Env binds the function-typed parameters of the functions on the
+// current call chain to the functions actually supplied by that chain; CalleesCtx resolves a call
+// instruction under an Env and computes the callee's Env.
+
+type Env map[*ssa.Parameter][]*ssa.Function
+
+func (e Env) Key() string {
+	if len(e) == 0 {
+		return ""
+	}
+	var parts []string
+	for p, fs := range e {
+		s := p.Parent().String() + "." + p.Name() + "="
+		for _, f := range fs {
+			s += f.String() + ","
+		}
+		parts = append(parts, s)
+	}
+	sort.Strings(parts)
+	out := ""
+	for _, p := range parts {
+		out += p + ";"
+	}
+	return out
+}
+
+type CtxEdge struct {
+	*Edge
+	Env Env
+}
+
+// funcParamOrigin: if v is (a copy of) a function-typed parameter of the current function or an
+// enclosing one — possibly through a captured single-assignment cell — return that parameter.
+func (cg *CallGraph) funcParamOrigin(v ssa.Value, ts *Terms) *ssa.Parameter {
+	for i := 0; i < 10 && v != nil; i++ {
+		switch x := v.(type) {
+		case *ssa.Parameter:
+			if isFuncType(x.Type()) {
+				return x
+			}
+			return nil
+		case *ssa.ChangeType:
+			v = x.X
+		case *ssa.UnOp:
+			if x.Op.String() != "*" {
+				return nil
+			}
+			switch a := x.X.(type) {
+			case *ssa.Alloc:
+				if ci := ts.cell(a); ci.single != nil {
+					v = ci.single
+				} else {
+					return nil
+				}
+			case *ssa.FreeVar:
+				b, ok := ts.fvBind[a]
+				if !ok {
+					return nil
+				}
+				if al, ok := b.(*ssa.Alloc); ok {
+					if ci := ts.cell(al); ci.single != nil {
+						v = ci.single
+						continue
+					}
+					return nil
+				}
+				// nested capture: the binding is itself a free variable of the parent
+				if fv2, ok := b.(*ssa.FreeVar); ok {
+					b2, ok := ts.fvBind[fv2]
+					if !ok {
+						return nil
+					}
+					if al, ok := b2.(*ssa.Alloc); ok {
+						if ci := ts.cell(al); ci.single != nil {
+							v = ci.single
+							continue
+						}
+					}
+					return nil
+				}
+				return nil
+			default:
+				return nil
+			}
+		case *ssa.FreeVar:
+			b, ok := ts.fvBind[x]
+			if !ok {
+				return nil
+			}
+			v = b
+		default:
+			return nil
+		}
+	}
+	return nil
+}
+
+func (cg *CallGraph) resolveFuncsCtx(v ssa.Value, env Env, ts *Terms) []*ssa.Function {
+	if p := cg.funcParamOrigin(v, ts); p != nil {
+		if fs, ok := env[p]; ok {
+			return fs
+		}
+	}
+	return cg.FuncsOf(v)
+}
+
+func isAncestorOrSelf(anc, f *ssa.Function) bool {
+	for f != nil {
+		if f == anc {
+			return true
+		}
+		f = f.Parent()
+	}
+	return false
+}
+
+// CalleesCtx resolves the callees of ins under env.
+func (cg *CallGraph) CalleesCtx(ins ssa.Instruction, env Env, ts *Terms) []CtxEdge {
+	edges := cg.SiteOut[ins]
+	if len(edges) == 0 {
+		return nil
+	}
+	c := callInstrCommon(ins)
+	fn := ins.Parent()
+	var restrict map[*ssa.Function]bool
+	if c.StaticCallee() == nil && !c.IsInvoke() {
+		if p := cg.funcParamOrigin(c.Value, ts); p != nil {
+			if fs, ok := env[p]; ok {
+				restrict = map[*ssa.Function]bool{}
+				for _, f := range fs {
+					restrict[f] = true
+				}
+			}
+		}
+	}
+	var out []CtxEdge
+	for _, e := range edges {
+		if restrict != nil && !e.Callback && !restrict[e.Callee] {
+			continue
+		}
+		ne := Env{}
+		// closures nested in the current chain keep the bindings of their ancestors
+		for p, fs := range env {
+			if isAncestorOrSelf(p.Parent(), e.Callee) {
+				ne[p] = fs
+			}
+		}
+		if e.Callback {
+			// the closure handed to external code: if it is itself one of our parameter-bound functions
+			// nothing more to bind
+			if restrictOK(e.Callee, c, cg, env, ts) {
+				out = append(out, CtxEdge{e, ne})
+			}
+			continue
+		}
+		off := 0
+		if c.IsInvoke() {
+			off = 1
+		}
+		for i, a := range c.Args {
+			pi := i + off
+			if pi >= len(e.Callee.Params) {
+				continue
+			}
+			prm := e.Callee.Params[pi]
+			if !isFuncType(prm.Type()) {
+				continue
+			}
+			fs := cg.resolveFuncsCtx(a, env, ts)
+			if len(fs) > 0 {
+				ne[prm] = fs
+			}
+		}
+		_ = fn
+		out = append(out, CtxEdge{e, ne})
+	}
+	return out
+}
+
+// restrictOK: for callback edges (function values passed to external code), honour env when the
+// passed value is a bound parameter.
+func restrictOK(callee *ssa.Function, c *ssa.CallCommon, cg *CallGraph, env Env, ts *Terms) bool {
+	for _, a := range c.Args {
+		if !isFuncType(a.Type()) {
+			continue
+		}
+		if p := cg.funcParamOrigin(a, ts); p != nil {
+			if fs, ok := env[p]; ok {
+				for _, f := range fs {
+					if f == callee {
+						return true
+					}
+				}
+				continue
+			}
+		}
+		for _, f := range cg.FuncsOf(a) {
+			if f == callee {
+				return true
+			}
+		}
+	}
+	return false
+}
+
+// ReachCtx: functions reachable from roots, resolving function-typed parameters per call chain.
+func (cg *CallGraph) ReachCtx(roots []*ssa.Function, ts *Terms, ok func(*Edge) bool) map[*ssa.Function]bool {
+	type st struct {
+		fn  *ssa.Function
+		env Env
+	}
+	seen := map[string]bool{}
+	out := map[*ssa.Function]bool{}
+	var stack []st
+	push := func(f *ssa.Function, env Env) {
+		k := f.String() + "|" + env.Key()
+		if seen[k] {
+			return
+		}
+		seen[k] = true
+		out[f] = true
+		stack = append(stack, st{f, env})
+	}
+	for _, r := range roots {
+		push(r, Env{})
+	}
+	for len(stack) > 0 {
+		s := stack[len(stack)-1]
+		stack = stack[:len(stack)-1]
+		for _, b := range s.fn.Blocks {
+			for _, ins := range b.Instrs {
+				if callInstrCommon(ins) == nil {
+					continue
+				}
+				for _, ce := range cg.CalleesCtx(ins, s.env, ts) {
+					if ok != nil && !ok(ce.Edge) {
+						continue
+					}
+					push(ce.Callee, ce.Env)
 				}
 			}
 		}
